@@ -4,7 +4,8 @@ Proof: Props/C13.lean — `bracketed` (decided over the insertions/removals re-r
        (every history of the table model over those sites), `mutexmap_refcount`, `limiter_idle`.
 Tie:   T — Generated/TableShape.lean: every insertion into a per-exchange table with the removal the source pairs with
            it (go/ast recognisers, fail closed; a missing removal makes `bracketed` fail);
-       X — generated exchange histories (plain, block-wise up/down, observe, ping, one-way, peer requests) x outcomes
+       X — (incl. the hypothesis of the theorems: no table entry is created for an exchange after it ended — late and
+           duplicated responses, blocks, ACKs, resets for ended exchanges must not make any table grow) generated exchange histories (plain, block-wise up/down, observe, ping, one-way, peer requests) x outcomes
            (success, silence, cancel, deadline, reset, malformed block, duplicate token, abandoned transfer) on real
            udp/tcp connections under synctest, sizes of all tables through the verif-tagged accessors (hook h2) at every
            idle point and after housekeeping ticks at virtual times past every deadline; discovery tables over a real
@@ -151,6 +152,17 @@ class Gen:
                     self.failing += 1                                        # abandoned upload
             else:
                 S = ["req:%d:%s:4" % (n, r.choice(["con", "non"]))]
+        # late / duplicated peer messages for this exchange, typically after it has ended: nothing may be re-created for it
+        if S and S[0].split(":")[0] in ("do", "obs") and r.random() < 0.4:
+            pk = "x" if not udp else r.choice(["non", "con"])
+            late = r.choice(["resp:%d:%s:69:4:-" % (i, pk), "resp:%d:%s:69:40:-" % (i, pk), "resp:%d:%s:69:40:7" % (i, pk),
+                             "blk2:%d:1:1:%s" % (i, "x" if not udp else "non"), "blk2:%d:2:0:%s" % (i, "x" if not udp else "non"),
+                             "cont:%d:1" % i, "bad:%d" % i] + (["ack:%d" % i, "rst:%d" % i] if udp else []))
+            if not S[-1].startswith(("cancel", "sleep", "resp", "obscancel")):
+                S.append("cancel:%d" % i)
+            S.append(late)
+            if r.random() < 0.4:
+                S.append(late)
         return S
 
 
